@@ -75,10 +75,15 @@ Proof. exact waiters_fire. Qed.
 Print Assumptions C14_waiters_fire.
 
 (* "... within the connection timeout": whoever waits has a live connector, whose timer (CONNECTION_TIMEOUT,
-   armed in TubConnector.connect) answers every waiter when it fires *)
+   armed in TubConnector.connect) answers every lookup that was waiting when it fires; a lookup issued synchronously
+   from inside one of those errbacks (instant retry, re-entrant getReference) again waits on a live connector of its
+   own -- this uses the order of effects read from Tub.connectionFailed (connection_failed_forgets_first) *)
 Theorem C14_timeout_answers_all : forall ops x,
-  (t_waiters (tubof x (run ops)) <> 0 -> t_connector (tubof x (run ops)) <> None) /\
-  t_waiters (tubof x (step (run ops) (Timeout x))) = 0.
+  let s := run ops in let s' := step s (Timeout x) in
+  (t_waiters (tubof x s) <> 0 -> t_connector (tubof x s) <> None) /\
+  t_fired (tubof x s') = t_fired (tubof x s) + t_waiters (tubof x s) /\
+  (t_waiters (tubof x s') <> 0 -> t_connector (tubof x s') <> None) /\
+  (t_retry (tubof x s) = false -> t_waiters (tubof x s') = 0).
 Proof. exact timeout_answers_all. Qed.
 Print Assumptions C14_timeout_answers_all.
 
@@ -88,3 +93,18 @@ Theorem C14_lookups_accounted : forall ops x,
   (t_broker (tubof x (run ops)) <> None -> t_waiters (tubof x (run ops)) = 0).
 Proof. exact lookups_accounted. Qed.
 Print Assumptions C14_lookups_accounted.
+
+(* "for all histories of previous connections recorded by either side": when the non-master accepts the master's
+   decision on connection c -- whoever dialled c -- it records (master incarnation, seqnum) of that decision and c
+   becomes its current connection.  (This is what lets its next offer, after a cut only it has noticed, prove
+   knowledge of the master's stale connection: C14_equal_seqnum_accepted.)  Uses slave_table_recorded_always, read
+   from acceptDecisionVersion1.
+   PARTIAL: one step.  Not proved: the invariant over all schedules
+     t_broker (tm s) = Some c -> t_broker (ts s) = Some c -> t_slave (ts s) = Some (t_inc (tm s), t_bseq (tm s))
+   (what is missing: that every Decision in flight on the master's current connection carries the master's current
+   incarnation and seqnum); it is checked on the real Tubs by the trace correspondence and the one-sided-cut oracle. *)
+Theorem C14_slave_records_decision_partial : forall c s i q rest,
+  Nat.ltb c (nconn s) = true -> c_qms (conns s c) = Decision i q :: rest -> c_s (conns s c) = EDec ->
+  t_slave (ts (step s (Deliver c TS))) = Some (i, q) /\ t_broker (ts (step s (Deliver c TS))) = Some c.
+Proof. exact slave_records_decision. Qed.
+Print Assumptions C14_slave_records_decision_partial.
